@@ -76,6 +76,34 @@ Theorem C07_queries_keep_content :
 Proof. intros D P ED EP interp nd. exact (query_keeps_content interp nd). Qed.
 Print Assumptions C07_queries_keep_content.
 
+(* --- 3b. membership ignores the payloads: relabel every stored record / pose of a history by any function f
+        (for instance a constant one: all payloads equal, or "falsy") and both membership answers
+        - (t, d) in c  [has_pair]  and  t in c  [has_ts] - stay what they were.  Which keys are present is
+        decided by the keys assigned and deleted, never by the values. *)
+Theorem C07_records_membership_ignores_payload :
+  forall (D P Q : Type) (ED : EqDec D) (f : P -> Q) (ops : list (mop D P)) t d,
+    has_pair (snd (m_run [] (map (mop_map f) ops))) t d = has_pair (snd (m_run [] ops)) t d /\
+    has_ts (snd (m_run [] (map (mop_map f) ops))) t = has_ts (snd (m_run [] ops)) t.
+Proof. intros. apply rec_membership_ignores_payload. Qed.
+Print Assumptions C07_records_membership_ignores_payload.
+
+Theorem C07_trajectories_membership_ignores_payload :
+  forall (D P Q : Type) (ED : EqDec D) (f : P -> Q)
+         (interp : Z -> Z -> P -> Z -> P -> P) (interp' : Z -> Z -> Q -> Z -> Q -> Q)
+         (nd nd' : Z -> Z) (maxsize maxsize' : Z) (ops : list (top D P)) t d,
+    has_pair (data (snd (t_run interp' nd' (init maxsize') (map (top_map f) ops)))) t d =
+    has_pair (data (snd (t_run interp nd (init maxsize) ops))) t d /\
+    has_ts (data (snd (t_run interp' nd' (init maxsize') (map (top_map f) ops)))) t =
+    has_ts (data (snd (t_run interp nd (init maxsize) ops))) t.
+Proof. intros. apply traj_membership_ignores_payload. Qed.
+Print Assumptions C07_trajectories_membership_ignores_payload.
+
+(* has_pair / has_ts are, by definition, what the machines answer to HasPair / HasTs *)
+Lemma C07_membership_answers :
+  forall (D P : Type) (ED : EqDec D) (x : nested D P) t d,
+    fst (m_step x (HasPair t d)) = OBool (has_pair x t d) /\ fst (m_step x (HasTs t)) = OBool (has_ts x t).
+Proof. intros. split; reflexivity. Qed.
+
 (* --- 4. intermediate_pose on every reachable state (empty, single timestamp, after deletions, with a
         stale or fresh cache ...):  it never fails, *)
 Theorem C07_interpolation_never_fails :
